@@ -326,6 +326,51 @@ func (c *fibCase) exec(op string) {
 	case "settle":
 		c.settle()
 		return
+	case "burst": // burst free: a fibUpdate while the command queue has only `free` slots left and its consumer is stalled
+		if c.execMode {
+			return
+		}
+		q := c.r.Vf19Nfdc()
+		q.Vf19Drain()
+		free := atoi(f[1])
+		for q.Vf19QueueLen() < q.Vf19QueueCap()-free { // capacity probed, not assumed
+			q.Exec(nfdc.NfdMgmtCmd{Module: "faces", Cmd: "noop", Args: &mgmt.ControlArgs{}, Retries: 1})
+		}
+		c.dumpTables()
+		fmt.Fprintln(c.w, "go fu")
+		done := make(chan struct{})
+		go func() { c.r.Vf19FibUpdate(); close(done) }()
+		var all []nfdc.NfdMgmtCmd
+		for finished := false; !finished; {
+			synctest.Wait() // fibUpdate is either done or blocked in Exec on the full queue
+			select {
+			case <-done:
+				finished = true
+			default:
+			}
+			all = append(all, q.Vf19Drain()...) // the consumer catches up
+		}
+		var l []string
+		for _, m := range all {
+			if s := c.cmdStr(m); s != "o" {
+				l = append(l, s)
+			}
+		}
+		out := "-"
+		if len(l) > 0 {
+			out = strings.Join(l, ",")
+		}
+		fmt.Fprintf(c.w, "obs cmds %s\n", out)
+		c.obsFib()
+		return
+	case "pbulk": // pbulk router n: the router announces n further prefixes /bulk/<i> in one operation
+		ops := &tlv.PrefixOpList{ExitRouter: &tlv.Destination{Name: R(f[1])}}
+		for i := 0; i < atoi(f[2]); i++ {
+			n := mustName(fmt.Sprintf("/bulk/%d", i))
+			c.in.id(n)
+			ops.PrefixOpAdds = append(ops.PrefixOpAdds, &tlv.PrefixOpAdd{Name: n, Cost: 1})
+		}
+		c.r.Vf19Locked(func() { c.r.Vf19Pfx().Apply(ops) })
 	case "fu":
 		if c.execMode {
 			c.dumpTables()
@@ -414,7 +459,14 @@ func (c *fibCase) stopExecutor() {
 // settle lets the executor drain its queue (virtual time) and reports every ExecMgmtCmd call since the last settle and
 // the stand-in forwarder's route table.
 func (c *fibCase) settle() {
-	time.Sleep(120 * time.Second)
+	for i := 0; i < 2000; i++ { // virtual time: until the executor has emptied its queue (1 ms per call, 100 ms per failure)
+		time.Sleep(10 * time.Second)
+		synctest.Wait()
+		if c.r.Vf19Nfdc().Vf19QueueLen() == 0 {
+			break
+		}
+	}
+	time.Sleep(5 * time.Second) // the command taken last may still be retried
 	synctest.Wait()
 	att := "-"
 	if len(c.attLog) > 0 {
@@ -507,7 +559,11 @@ func genFibCase(w *bufio.Writer, rng *rand.Rand, k int, budget int) []string {
 			}
 			do(fmt.Sprintf("papply %d %d %s %s", router, reset, adds, rems))
 		default:
-			do("fu")
+			if !exec && rng.Intn(12) == 0 {
+				do(fmt.Sprintf("burst %d", rng.Intn(4))) // queue (almost) full, consumer stalled
+			} else {
+				do("fu")
+			}
 			if exec && rng.Intn(3) == 0 {
 				do("settle")
 			}
